@@ -31,6 +31,34 @@ def _canon(case: Any) -> str:
     return json.dumps(core.jsonable(case), sort_keys=True, default=str)
 
 
+def _raised_in_library(e: BaseException) -> bool:
+    """did the exception originate inside the library under test (a frame of the package `perception_eval` at or below
+    the raise site), as opposed to harness code?"""
+    tb = e.__traceback__
+    last = None
+    while tb is not None:
+        last = tb
+        tb = tb.tb_next
+    if last is None:
+        return False
+    fn = last.tb_frame.f_code.co_filename.replace("\\", "/")
+    if "/perception_eval/" in fn and "/harness/" not in fn:
+        return True
+    # raised by a third-party / stdlib function CALLED from the library (numpy, pyquaternion, ...): walk up to the first
+    # frame that is either the library or the harness
+    frames = []
+    tb = e.__traceback__
+    while tb is not None:
+        frames.append(tb.tb_frame.f_code.co_filename.replace("\\", "/"))
+        tb = tb.tb_next
+    for fn in reversed(frames):
+        if "/harness/" in fn:
+            return False
+        if "/perception_eval/" in fn:
+            return True
+    return False
+
+
 class Runner:
     def __init__(self, mod, tier: str, seed: int) -> None:
         self.mod = mod
@@ -46,6 +74,13 @@ class Runner:
         self.failures: List[dict] = []  # oracle failures on the real code
         self.known_hits: Dict[str, int] = Counter()
         self.skipped = 0
+        self.infra: List[str] = []  # failures of the harness itself (never a property violation; exit 2)
+        self.known_ids = {e["id"] for e in core.load_known(self.prop) if e.get("kind") == "known"}
+        self.case_timeout = int(os.environ.get("VERIF_CASE_TIMEOUT", "300"))
+
+    def _infra(self, where: str, e: BaseException) -> None:
+        if len(self.infra) < 20:
+            self.infra.append(f"{where}: {type(e).__name__}: {e} :: {traceback.format_exc()[-700:]}")
 
     # ---- one batch: implementation, model, compare, oracle
     def run_batch(self, cases: List[Any], st: core.LeanStatus, with_model: bool = True) -> None:
@@ -53,10 +88,22 @@ class Runner:
         outs = []
         for c in cases:
             try:
-                out = mod.run_impl(c)
-            except Exception as e:  # the harness did not anticipate this exception of the real code
-                out = {"err": core.err_kind(e), "unexpected": True, "trace": traceback.format_exc()[-800:]}
+                with core.time_limit(self.case_timeout):
+                    out = mod.run_impl(c)
+            except core.CaseTimeout:
+                # the real code did not return: reported as a failure of the property on this input (it neither returned
+                # a result nor rejected the input)
+                out = {"err": "Timeout", "unexpected": True, "trace": f"no result within {self.case_timeout} s"}
+            except Exception as e:
+                if _raised_in_library(e):  # the real code raised where the harness expected it to return
+                    out = {"err": core.err_kind(e), "unexpected": True, "trace": traceback.format_exc()[-800:]}
+                else:  # the harness itself failed (set-up, helper, temp dir ...): not a statement about the property
+                    self._infra("run_impl", e)
+                    out = None
             outs.append(out)
+        keep = [i for i, o in enumerate(outs) if o is not None]
+        cases = [cases[i] for i in keep]
+        outs = [outs[i] for i in keep]
         # model
         resps_per_case: List[Optional[List[Optional[dict]]]] = [None] * len(cases)
         if with_model and st.driver_ok and hasattr(mod, "model_requests"):
@@ -67,7 +114,8 @@ class Runner:
                     rs = mod.model_requests(c, o) or []
                 except Exception as e:
                     rs = []
-                    self.disagreements.append({"case": c, "impl": o, "why": f"model_requests raised {e!r}"})
+                    if not o.get("unexpected"):
+                        self._infra("model_requests", e)
                 spans.append((len(reqs), len(reqs) + len(rs)))
                 reqs.extend(rs)
             resps = core.run_model(self.prop, reqs, st)
@@ -96,24 +144,31 @@ class Runner:
                     else:
                         d = mod.compare(c, o, rs)
                 except Exception as e:
-                    d = f"compare raised {e!r}"
+                    d = None
+                    if not o.get("unexpected"):
+                        self._infra("compare", e)
                 if d == "skip":
                     self.skipped += 1
                 elif d:
                     self.disagreements.append({"case": c, "impl": o, "model": rs, "why": d})
             # oracle
-            try:
-                f = mod.oracle(c, o)
-            except Exception as e:
-                f = f"oracle raised {e!r}: {traceback.format_exc()[-600:]}"
+            if isinstance(o, dict) and o.get("unexpected"):
+                f = f"the real code raised {o.get('err')} unexpectedly (no result, no anticipated rejection): {str(o.get('trace'))[-500:]}"
+            else:
+                try:
+                    f = mod.oracle(c, o)
+                except Exception as e:
+                    f = None
+                    self._infra("oracle", e)
             if f:
                 kid = None
                 if hasattr(mod, "known_finding"):
                     try:
                         kid = mod.known_finding(c, o, f)
-                    except Exception:
+                    except Exception as e:
                         kid = None
-                if kid:
+                        self._infra("known_finding", e)
+                if kid and kid in self.known_ids:  # only LISTED findings of kind "known" suppress a failure
                     self.known_hits[kid] += 1
                 else:
                     self.failures.append({"case": c, "impl": o, "why": f})
@@ -127,7 +182,11 @@ class Runner:
         improved = True
         while improved and budget > 0:
             improved = False
-            for cand in mod.shrink(cur["case"]):
+            try:
+                cands = list(mod.shrink(cur["case"]))
+            except Exception:
+                break
+            for cand in cands:
                 budget -= 1
                 if budget <= 0:
                     break
@@ -136,7 +195,11 @@ class Runner:
                     f = mod.oracle(cand, out)
                 except Exception:
                     continue
-                if f and not (hasattr(mod, "known_finding") and mod.known_finding(cand, out, f)):
+                try:
+                    kid = mod.known_finding(cand, out, f) if (f and hasattr(mod, "known_finding")) else None
+                except Exception:
+                    continue
+                if f and not (kid and kid in self.known_ids):
                     cur = {"case": cand, "impl": out, "why": f}
                     improved = True
                     break
@@ -159,28 +222,50 @@ def main(argv=None) -> int:
     except Exception:
         print(f"INFRA-ERROR: cannot load harness module for {prop}\n{traceback.format_exc()}")
         return 2
-    theorems = list(getattr(mod, "THEOREMS", []))
+    theorems = list(dict.fromkeys(getattr(mod, "THEOREMS", [])))
+    core.use_scratch_tmpdir()  # every mkdtemp of the harness lands in one per-process directory, removed at exit
     run = Runner(mod, args.tier, seed)
 
     # ---------------------------------------------------------------- replay mode
     if args.replay:
-        payload = json.loads(open(args.replay).read())
-        case = payload.get("case")
-        if case is None:
-            print(f"replay {args.replay} names no concrete input: {payload.get('broken')}")
+        try:
+            payload = json.loads(open(args.replay).read())
+            case = payload.get("case")
             st = core.prepare_lean(prop, theorems, "quick")
-            print("lean status:", st.summary())
-            return 0 if st.proofs_ok else 1
-        st = core.prepare_lean(prop, theorems, "quick")
-        run.run_batch([case], st)
+            if st.infra:
+                print(f"INFRA-ERROR: {st.infra}")
+                return 2
+            if case is None:
+                # a no-failing-input-found replay: it names the broken theorem / the first diverging correspondence case
+                print(f"replay {args.replay} names no failing input: {str(payload.get('broken'))[:600]}")
+                print("lean status:", st.summary())
+                fd = (payload.get("broken") or {}).get("first_disagreement") or {}
+                if fd.get("case") is not None:
+                    run.run_batch([fd["case"]], st)
+                still = (not st.proofs_ok) or bool(run.disagreements) or bool(run.failures)
+                if run.infra and not still:
+                    print("INFRA-ERROR: " + run.infra[0])
+                    return 2
+                if still:
+                    print(f"VIOLATION property={prop} replay={args.replay}" + ("" if run.failures else " no-failing-input-found"))
+                    return 1
+                print("replay passes")
+                return 0
+            run.run_batch([case], st)
+        except Exception:
+            print(f"INFRA-ERROR: replay failed\n{traceback.format_exc()}")
+            return 2
         for f in run.failures:
             print("property fails on the real code:", f["why"])
         for d in run.disagreements:
             print("model and code disagree:", d["why"])
         if run.failures or run.disagreements:
-            print(f"VIOLATION property={prop} replay={args.replay}")
+            print(f"VIOLATION property={prop} replay={args.replay}" + ("" if run.failures else " no-failing-input-found"))
             return 1
-        print("replay passes")
+        if run.infra:
+            print("INFRA-ERROR: " + run.infra[0])
+            return 2
+        print("replay passes" + (" (a listed known finding reproduces)" if run.known_hits else ""))
         return 0
 
     # ---------------------------------------------------------------- translate, prove, audit
@@ -188,6 +273,13 @@ def main(argv=None) -> int:
         st = core.prepare_lean(prop, theorems, args.tier, getattr(mod, "EXTRA_TARGETS", ()))
     except Exception:
         print(f"INFRA-ERROR: lean toolchain failed\n{traceback.format_exc()}")
+        core.write_evidence_stub(prop, args.tier, seed, "lean toolchain failed")
+        return 2
+    if st.infra:
+        # the toolchain itself failed (lake/lean missing or crashing, driver build failing without a source error):
+        # nothing can be said about the property
+        print(f"INFRA-ERROR: {st.infra}")
+        core.write_evidence_stub(prop, args.tier, seed, st.infra)
         return 2
 
     # ---------------------------------------------------------------- correspondence + oracle
@@ -200,6 +292,11 @@ def main(argv=None) -> int:
             run.run_batch(gen[i : i + B], st)
     except Exception:
         print(f"INFRA-ERROR: harness failed\n{traceback.format_exc()}")
+        core.write_evidence_stub(prop, args.tier, seed, "harness failed: " + traceback.format_exc()[-400:])
+        return 2
+    if st.driver_crashed and not run.failures:
+        print(f"INFRA-ERROR: the model driver crashed: {st.driver_msg[:400]}")
+        core.write_evidence_stub(prop, args.tier, seed, "model driver crashed")
         return 2
 
     # ---------------------------------------------------------------- failing-input search
@@ -235,6 +332,7 @@ def main(argv=None) -> int:
                         break
         except Exception:
             print(f"INFRA-ERROR: search failed\n{traceback.format_exc()}")
+            core.write_evidence_stub(prop, args.tier, seed, "search failed")
             return 2
 
     # ---------------------------------------------------------------- known findings
@@ -243,12 +341,18 @@ def main(argv=None) -> int:
         hits = run.known_hits.get(e["id"], 0)
         if hits:
             print(f"KNOWN-FINDING: property={prop} {e['what']} [{e['id']}; reproduced on {hits} case(s)]")
+        else:
+            # informational (exit code unaffected): the listed defect was not met in this run - it may have been repaired
+            print(f"NOTE: known finding {e['id']} of {prop} was not reproduced in this run (no case hit its signature)")
 
     # ---------------------------------------------------------------- verdict
     violations = 0
     lines = []
     if run.failures:
-        first = run.shrink(run.failures[0], st)
+        try:
+            first = run.shrink(run.failures[0], st)
+        except Exception:
+            first = run.failures[0]
         path = core.write_replay(
             prop,
             {
@@ -320,7 +424,7 @@ def main(argv=None) -> int:
             ev["coverage"].update(mod.extra_evidence())
         except Exception:
             pass
-    core.write_evidence(prop, ev)
+    ev["coverage"]["harness_errors"] = run.infra[:5]
     print(
         f"{prop} [{args.tier}] seed={seed}: theorems {ev['coverage']['discharged']}/{n_obl} discharged; "
         f"{run.evaluations} cases ({len(run.distinct)} distinct non-trivial), "
@@ -329,7 +433,19 @@ def main(argv=None) -> int:
     )
     for l in lines:
         print(l)
-    return 1 if violations else 0
+    sys.stdout.flush()
+    try:
+        core.write_evidence(prop, ev)
+    except Exception:
+        core.write_evidence_stub(prop, args.tier, seed, "evidence could not be serialised: " + traceback.format_exc()[-300:],
+                                 violations=violations)
+    if violations:
+        return 1
+    if run.infra:
+        # the harness itself failed on some case(s): nothing is claimed about the property for them
+        print(f"INFRA-ERROR: the harness failed on {len(run.infra)} case(s) (no property violation is claimed): {run.infra[0][:600]}")
+        return 2
+    return 0
 
 
 if __name__ == "__main__":
